@@ -25,13 +25,13 @@ TEXT = json.load(open(os.path.join(VERIF, "tools/manifest_text.json")))
 def gen():
     hs = main.discover()
     props = [json.loads(l)["id"] for l in open(os.path.join(VERIF, "properties.jsonl"))]
-    claimed = sorted({p for h in hs for p in h["props"]} & set(TEXT))
+    claimed = sorted({p for p in TEXT if main.deciding(hs, p)})
     checks = []
     for p in props:
         if p not in claimed:
             continue
-        phs = [h for h in hs if p in h["props"]]
-        complete = all(h["kind"].startswith("complete") for h in phs)
+        phs = main.deciding(hs, p)
+        complete = main.claimed_category(hs, p) == "proof"
         t = TEXT[p]
         checks.append({
             "property_id": p,
